@@ -209,8 +209,10 @@ def histGroupOf (n : Str) (s : OSample) : Option Labels :=
       (if dictHas l cs!"le" then some (l.filter (fun kv => kv.1 != cs!"le")) else none)
     else some l
 
-/-- a bucket line of family `n` with bound `b` in group `g` -/
+/-- a bucket line of family `n` with bound `b` in group `g` (a classic sample: `_check_histogram` skips native
+histogram samples) -/
 structure IsBucket (P : Params) (n : Str) (s : OSample) (b : Nat) (g : Labels) : Prop where
+  classic : s.nh = none
   name : s.name = n ++ cs!"_bucket"
   group : histGroupOf n s = some g
   bound : ∃ l le, s.labels = some l ∧ dictGet l cs!"le" = some le ∧ P.pyFloat le = some b
@@ -232,13 +234,14 @@ def HistCountsNotCumulative (P : Params) (n : Str) (samples : List OSample) : Pr
 /-- a sample of family `n` that is not a bucket line and belongs to the group `g` at timestamp `t`
 (`_count`, `_sum`, `_gcount`, `_gsum`, `_created`) -/
 def InHistGroup (n : Str) (g : Labels) (t : Option OTs) (s : OSample) : Prop :=
-  s.name.drop n.length ≠ cs!"_bucket" ∧ s.ts = t ∧ (∃ l, histGroupOf n s = some l ∧ sortByKey l = sortByKey g) ∧
+  s.nh = none ∧ s.name.drop n.length ≠ cs!"_bucket" ∧ s.ts = t ∧ (∃ l, histGroupOf n s = some l ∧ sortByKey l = sortByKey g) ∧
     (s.name.drop n.length = cs!"_gsum" → ∃ v, s.value = some v)
 
 /-- the group is over: the list ends, or a sample (with a suffix) of another group or timestamp follows -/
 def GroupEnds (P : Params) (n : Str) (g : Labels) (t : Option OTs) : List OSample → Prop
   | [] => True
-  | s :: _ => s.name.drop n.length ≠ [] ∧ ∃ l, histGroupOf n s = some l ∧ (sortByKey l ≠ sortByKey g ∨ tsEq P s.ts t = false)
+  | s :: _ => s.nh = none ∧ s.name.drop n.length ≠ [] ∧
+      ∃ l, histGroupOf n s = some l ∧ (sortByKey l ≠ sortByKey g ∨ tsEq P s.ts t = false)
 
 /-- a group whose last bucket line is not the `+Inf` bucket -/
 def HistNoInf (P : Params) (n : Str) (samples : List OSample) : Prop :=
